@@ -9,7 +9,10 @@ def convert_value(value: Any, target_type: Type[T]) -> T:
     if isinstance(value, target_type):
         return value
 
-    value = str(value).strip().lower()
+    try:
+        value = str(value).strip().lower()
+    except ValueError:  # e.g. an int with more digits than the interpreter converts to str
+        raise ConversionError(f'Value of type {type(value)} cannot be converted to {target_type}.')
 
     if target_type == bool:
         if value in ['true', '1']:
